@@ -396,6 +396,64 @@ fn paths(rep: &mut Report, level: u32, shard: u64, nshards: u64, r: &mut Rng, bu
         }
         check_path(rep, &s, None);
     }
+    // "whatever was there before": set_path on a request whose Uri-Path option holds arbitrary raw
+    // values (from the wire or from raw adds: '/' inside a value, empty values, non-UTF-8 bytes)
+    // must leave exactly what set_path leaves on a fresh request
+    if shard == 0 || level == 0 {
+        let pool: [&[u8]; 9] = [b"a", b"b", b"a/b", b"", "\u{e9}".as_bytes(), b"x/y/z", &[0xC3, 0x28], &[0xff], b"/"];
+        let n = pool.len();
+        let mut states: Vec<Vec<&[u8]>> = Vec::new();
+        for i in 0..n {
+            states.push(vec![pool[i]]);
+            for j in 0..n {
+                states.push(vec![pool[i], pool[j]]);
+                if level > 0 && (i + j) % 3 == 0 {
+                    for k in 0..n {
+                        states.push(vec![pool[i], pool[j], pool[k]]);
+                    }
+                }
+            }
+        }
+        for (si, st) in states.iter().enumerate() {
+            if level == 0 && si % 7 != 0 {
+                continue;
+            }
+            let dirty = |q: &mut Req| {
+                for v in st {
+                    q.message.add_option(CoapOption::UriPath, v.to_vec());
+                }
+            };
+            // the text the dirty request itself reports, with and without a leading '/', and a few fixed ones
+            let reported = {
+                let mut q: Req = CoapRequest::new();
+                dirty(&mut q);
+                guard(|| q.get_path()).unwrap_or_default()
+            };
+            for newp in [reported.clone(), format!("/{}", reported), "a/b".to_string(), "b".to_string(), String::new(), "a".to_string()] {
+                rep.eval();
+                let res = guard(|| {
+                    let mut fresh: Req = CoapRequest::new();
+                    fresh.set_path(&newp);
+                    let mut q: Req = CoapRequest::new();
+                    dirty(&mut q);
+                    q.set_path(&newp);
+                    let raw = |x: &Req| -> Vec<Vec<u8>> { x.message.get_option(CoapOption::UriPath).map(|l| l.iter().cloned().collect()).unwrap_or_default() };
+                    (raw(&fresh), raw(&q), fresh.message.to_bytes_unlimited().ok(), q.message.to_bytes_unlimited().ok())
+                });
+                let wit = format!("Uri-Path held {:?}, then set_path({:?})", st.iter().map(|v| hex(v)).collect::<Vec<_>>(), newp);
+                match res {
+                    Err(p) => rep.violation(&p.sig(), p.text(), wit),
+                    Ok((f, q, fw, qw)) => {
+                        if f != q || fw != qw {
+                            rep.violation("set-path-depends-on-previous-state", format!("a fresh request ends up with Uri-Path {:?}, this one with {:?}", f.iter().map(|v| hex(v)).collect::<Vec<_>>(), q.iter().map(|v| hex(v)).collect::<Vec<_>>()), wit);
+                        } else {
+                            rep.count("set_path_over_raw_state");
+                        }
+                    }
+                }
+            }
+        }
+    }
     // non-UTF-8 raw segment: vec form is an error, string form does not panic
     rep.eval();
     let res = guard(|| {
